@@ -4,6 +4,7 @@
 -/
 import ClockBound.Model.Oracles
 import ClockBound.Model.OraclesD
+import ClockBound.Model.SeqlockSim
 namespace ClockBound.Driver
 open ClockBound
 
@@ -243,6 +244,37 @@ def driftLine (args impl : List String) : String :=
                     (if r + 2 ≥ 4294968 ∧ r ≤ 4294970 then ["boundary"] else [])
       s!"{mtxt} | {v} | {String.intercalate "," tags}"
 
+/-! ### seqlock scenarios -/
+
+/-- sl <scenario…> => ann <9> ; <trace tokens> -/
+def slLine (args impl : List String) : String :=
+  match SL.parseScenario args, impl.splitOn ";" with
+  | some sc, [annT, traceT] =>
+    match annT with
+    | "ann" :: at9 =>
+      match SL.parseAnn at9 with
+      | none => "bad-ann | C02:FAILS oracle:unparsed |"
+      | some a =>
+        let (mtrace, fresh) := SL.simulate a sc
+        let isW (tid : Nat) : Bool := (sc.threads[tid]?.map (·.isWriter)).getD false
+        let freshCall (tid n : Nat) : Bool := fresh.contains (tid, n)
+        let toks := traceT.filterMap SL.parseTok
+        let o := toks.foldl (SL.oracleStep sc.init isW freshCall) (SL.initState sc.init)
+        let adequate := a.adequate
+        let v := String.intercalate " " [
+          verdict "C02" true o.c02,
+          verdict "C03" true (o.c03 && o.c03catch),
+          verdict "C04" (o.crashes > 0) (o.c02 && o.c03 && o.c03catch && o.c18 && SL.allReturned o),
+          verdict "C18" true (o.c18 && SL.allReturned o),
+          (if adequate then "ann:adequate" else "ann:INADEQUATE")]
+        let tags := (if o.overlapped > 0 then ["overlap"] else []) ++ (if o.crashes > 0 then ["crash"] else []) ++
+          (if o.retries > 0 then ["retry"] else []) ++ (if o.catchChecks > 0 then ["catchup"] else []) ++
+          (if o.completed.length ≥ 2 then ["pubs2"] else []) ++ (if o.calls ≥ 2 then ["calls2"] else []) ++
+          (match sc.init with | .valid _ _ => ["initValid"] | _ => ["initFresh"])
+        s!"ann {a.text} ; {String.intercalate " " mtrace} | {v} | {String.intercalate "," tags}"
+    | _ => "bad-ann | C02:FAILS oracle:unparsed |"
+  | _, _ => "bad-op | C02:FAILS oracle:unparsed |"
+
 def processLine (line : String) : String :=
   let parts := line.splitOn " => "
   let req := (parts.headD "").trimAscii.toString.splitOn " " |>.filter (· ≠ "")
@@ -253,6 +285,7 @@ def processLine (line : String) : String :=
   | "extract" :: args => extractLine args impl
   | "upd" :: args => updLine args impl
   | "gen" :: args => genLine args impl
+  | "sl" :: args => slLine args impl
   | "drift" :: args => driftLine args (match impl with | "refused" :: _ => ["refused"] | x => x)
   | _ => "bad-op | |"
 
